@@ -1180,7 +1180,15 @@ fn corpus() -> Vec<(HeaderDesc, Vec<RecDesc>)> {
         let mut h45 = h.clone();
         h45.fileformat = (4, 5);
         h45.formats.push(fdef("LEN", Num::Count(1), Ty::Integer));
-        let m = len_matrix(&h45, &base_for_gt);
+        h45.infos.push(fdef("SVLEN", Num::A, Ty::Integer));
+        let mut m = len_matrix(&h45, &base_for_gt);
+        // and by SVLEN (one value per ALT, the symbolic allele's decides)
+        for svlen in [vec![Some(500)], vec![None, Some(70000)], vec![Some(1), Some(2)]] {
+            let mut r = base_for_gt.clone();
+            r.alts = if svlen.len() == 1 { vec!["<DEL>".into()] } else { vec!["C".into(), "<DUP>".into()] };
+            r.info = vec![("SVLEN".into(), Some(Val::Ints(svlen)))];
+            m.push(r);
+        }
         out.push((h45, m));
     }
     // ploidy 3 / 4 genotypes with every order of `/` and `|` separators under every fileformat
@@ -1378,11 +1386,13 @@ fn main() {
         for minor in 2..=5 {
             for k in ["gt_mixed_separators", "gt_last_phased_earlier_unphased", "gt_last_unphased_earlier_phased"] {
                 let k = format!("{k}[4.{minor}]");
-                rep.floor(&k, get(&k), 40);
+                rep.floor(&k, get(&k), if ctx.param("cases").is_none() { 40 } else { 1 });
             }
         }
+        // absolute floors hold for the full budgets only (reduced sanitizer stages pass `cases=`)
+        let full = ctx.param("cases").is_none();
         for k in ["span_checked[LEN|info-empty]", "span_checked[LEN|info-nonempty]", "span_checked[END|info-nonempty]", "span_checked[SVLEN|info-nonempty]", "span_checked[REF|info-empty]"] {
-            rep.floor(k, get(k), 20);
+            rep.floor(k, get(k), if full { 20 } else { 1 });
         }
         rep.floor("gt allele index >= 63 offered to the writer", get("gt_allele_index_unrepresentable:rejected") + get("gt_allele_index_unrepresentable:accepted"), 100);
         rep.floor("records_with_gt_as_string", get("records_with_gt_as_string"), 100);
